@@ -32,6 +32,14 @@ CLAIMED = {
          "the C06 harness with the scan ended at every point x every server chunking; server-side scanner table as observer",
          "Every C06-style configuration (3 rows) is additionally ended after every number of Next calls by Close, cancellation, an RPC error on request j, or more_results=false while a region scanner is open, with and without a lease renewer on the virtual clock; all chunkings enumerated. Oracle: error/cancellation once then io.EOF, Close idempotent, no region scanner left open on the simulated server after draining, no client thread (renewer) left.",
          "As C06.", "DESIGN.md §4 C14"),
+ "C11": ("fault_enumeration",
+         "bounded exhaustive malformed-input enumeration into the decoders and through the real reader goroutine under the controlled scheduler; allocation-driving inputs in a memory-limited sub-process",
+         "Part A: all byte strings of length <=2 (thorough <=3), all strings <=6 (8) over six boundary bytes, and the 10x10x10x8x6 boundary product of the five KeyValue length fields (on exact, short and two-cell buffers whose capacity equals their length) into the cellblock reader; every prefix and byte corruption of a region-info value into the meta-row parser. Part B: for outstanding get / mutate / scan / multi calls, ~50 structure-aware mutations each (call id, exception parts, delimiters, cellblock length, cell counts, scan arrays, multi indices / duplicates / region-result counts / nameless exceptions, frame length), every truncation and 5 values at every byte of the valid frame, damaged compressed cellblocks, all delivered by a simulated server to the real reader goroutine. Oracle: no panic in any thread, no caller stranded, reader not blocked, later calls served or refused.",
+         "The 4-byte frame length is trusted up to 1 MiB (framing-inherent allocation not judged); default thread schedule in part B; pairs of mutations only in the thorough tier.", "DESIGN.md §4 C11"),
+ "C15": ("exploration",
+         "exhaustive small-size + chunk-boundary enumeration of payloads, buffer splits, block/chunk compositions, truncations and byte flips against an independent Hadoop block-stream reader and snappy decoder",
+         "Client compress -> independent reader = input = client decompress for sizes 0..64 and around 1-3 chunks (218421 B) x 3 content classes x every buffer split; conforming server streams from an independent writer in every composition of <=3 blocks x 1..3 chunks; every truncation and byte substitution of small streams must give an error or exactly what the independent reader returns (raw snappy has no checksum). Streams that declare huge lengths run in a 1 GiB sub-process.",
+         "Differential oracle for corruption; golang/snappy is the client's codec, the check uses its own decoder.", "DESIGN.md §4 C15"),
  "C08": ("model_checking",
          "explicit-state breadth-first search over the real location cache, every transition executed on the implementation and judged against an interval model",
          "All 1683 reachable states of a universe of every interval over 3 boundary points x 2 ids (plus a prefix-named table) with put/del of every region as transitions (87k per configuration), repeated with 0..130 filler regions to move entries across B-tree pages; invariant (no two cached regions of a table intersect) in every state, transition relation (evict-all-older / unchanged) on every edge, dead marks, and a differential rebuild from the canonical state.",
@@ -42,7 +50,7 @@ CLAIMED = {
          "Every ordered pair of ~2.6k (quick) / ~10k (thorough) well-formed region names and every triple of a 160-name subset is compared with the real comparator and with a component-wise (table,start,id) oracle; search keys 'table,key,:' are compared against every name. Exhaustive within the stated alphabet and key length, which is where comparator mistakes live (bytes around ',' and unequal lengths).",
          "Scope bound: start keys <=2/<=3 bytes over {00,'+',',','-','a',ff}; well-formed names only.", "DESIGN.md §4 C16"),
 }
-FIX_COMMITS = ["0da2129", "62252c5", "effb93f", "0cef440", "27c75df"]
+FIX_COMMITS = ["0da2129", "62252c5", "effb93f", "0cef440", "27c75df", "f573f90", "137cea9", "fa68402", "74e6ab5", "ffdcfd8", "dc24a9a", "6fcb5bf"]
 NA_REASONS = {}
 PENDING_REASON = "check under construction in this revision (planned: see DESIGN.md §4); not claimed until its check is committed"
 
